@@ -111,11 +111,18 @@ def check_constriction(box, v):
     return []
 
 
-def velocity_body_factory(name, boxes, nleaders, xcase):
+def velocity_body_factory(name, boxes, nleaders, xcase, narrowed=False):
     def body(ctx):
         from artap.individual import Individual
         from artap.archive import Archive
-        a = algorithm(name, boxes)
+        if narrowed:
+            # the algorithm object is built on a wide box; afterwards the user narrows the bounds of the problem in place
+            wide = [[b[0] - 40.0 * (b[1] - b[0]), b[1] + 40.0 * (b[1] - b[0])] for b in boxes]
+            a = algorithm(name, wide, N=7)
+            for par, b in zip(a.problem.parameters, boxes):
+                par['bounds'][0], par['bounds'][1] = b
+        else:
+            a = algorithm(name, boxes)
         a.leaders = Archive()
         pts = {"lb": [b[0] for b in boxes], "ub": [b[1] for b in boxes], "mid": [(b[0] + b[1]) / 2 for b in boxes]}
         for k in range(nleaders):
@@ -134,11 +141,14 @@ def velocity_body_factory(name, boxes, nleaders, xcase):
             return [("C18:velocity:exception:%s" % type(e).__name__, "%s boxes %r raised %r" % (name, boxes, e))]
         finally:
             sh.ctx = None
+            if narrowed:
+                for par, b in zip(a.problem.parameters, wide):
+                    par['bounds'][0], par['bounds'][1] = b
         out = []
         for v, b in zip(ind.features['velocity'], boxes):
             half = (b[1] - b[0]) / 2.0
             if not (-half <= v <= half):
-                out.append(("C18:velocity:not-clamped:%s" % name, "%s boxes %r particle %r leaders %d: velocity %r exceeds +-%r" % (
+                out.append(("C18:velocity:not-clamped:%s%s" % (name, ":bounds-narrowed-later" if narrowed else ""), "%s boxes %r particle %r leaders %d: velocity %r exceeds +-%r" % (
                     name, boxes, xcase, nleaders, v, half)))
                 break
         ctx.digest = tuple(ind.features['velocity'])
@@ -214,7 +224,8 @@ def _shard(shard, col: Collector):
             col.violation(key, sub, msg, case)
     if kind == "pbest":
         _, name = shard
-        for values, m in ((A4, 1), (A4, 2), (V3, 3)):
+        NEARV = (1000.0, 1000.0000001, 1.0, 1.0 + 1e-12, 0.0, 1e-17)
+        for values, m in ((A4, 1), (A4, 2), (V3, 3), (NEARV, 1), (NEARV, 2)):
             vs = [tuple(v) + (f,) for v in itertools.product(values, repeat=m) for f in (False, True)]
             for new in vs:
                 for best in vs:
@@ -240,6 +251,10 @@ def _shard(shard, col: Collector):
                 body = velocity_body_factory(name, boxes, nleaders, xcase)
                 explore(body, col, bound=None, sub="velocity",
                         case_extra={"name": name, "boxes": boxes, "nleaders": nleaders, "xcase": xcase})
+            if abs(boxes[0][1] - boxes[0][0]) < 1e6 and abs(boxes[1][1] - boxes[1][0]) < 1e6:
+                body = velocity_body_factory(name, boxes, nleaders, ("lb", "ub"), True)
+                explore(body, col, bound=None, sub="velocity",
+                        case_extra={"name": name, "boxes": boxes, "nleaders": nleaders, "xcase": ("lb", "ub"), "narrowed": True})
         col.sample({"kind": "velocity", "class": name, "boxes": boxes, "draws": "every combination of base/0/1-2^-53"}, 1)
     elif kind == "run":
         _, name, N, G, seed, bound, part, nparts, objective = shard
@@ -262,7 +277,7 @@ def replay(sub, case):
     if sub == "constriction":
         return check_constriction(list(case["box"]), case["v"])
     if sub == "velocity":
-        ctx, out = run_once(velocity_body_factory(case["name"], case["boxes"], case["nleaders"], tuple(case["xcase"])), case["choices"])
+        ctx, out = run_once(velocity_body_factory(case["name"], case["boxes"], case["nleaders"], tuple(case["xcase"]), case.get("narrowed", False)), case["choices"])
         return out
     if sub == "run":
         ctx, out = run_once(run_body_factory(case["name"], case["N"], case["G"], case["seed"], case.get("objective", "std")), case["choices"])
